@@ -167,6 +167,7 @@ func (ms *readWriteSegment) Append(offset int64, data []byte) error {
 }
 
 func (ms *readWriteSegment) Flush() error {
+	defer verifOnFlush(ms.c.txnPath)
 	return ms.txnMappedFile.Flush()
 }
 
